@@ -101,9 +101,15 @@ def _with_sets(prop, tier, flat=True, small_space=True, small_hist=True, nested=
 def c02(tier):
     t0 = time.time()
     cov, viols, inc = _with_sets("C02", tier, nested=True)
+    # non-relocatable elements no larger than a pointer: address / value / life cycle in a side table (harness/tiny_main.cpp)
+    tcfgs = sets.TINY_QUICK + (sets.TINY_THOROUGH if tier == "thorough" else [])
+    c2, v2, i2 = sets.run_engine("C02", tier, tcfgs, 800, 8000, ops=80, crash_owners=("C02",), any_prop=True)
+    cov, viols, inc = sets.merge_cov(cov, c2), viols + v2, inc + i2
     cov["rule"] = VEC_RULE + ("The same for FlatSet pools and SmallSet pools (random histories and the complete small-scope SmallSet state space). "
                               "Judge: element ledger (identity, lifetime, moved-from flag, self pointer of non relocatable elements, self move-assignment "
-                              "in the vector engines) evaluated after every call and at the end of every history, plus ASan/UBSan/LSan.")
+                              "in the vector engines) evaluated after every call and at the end of every history, plus ASan/UBSan/LSan. Plus histories over vectors of "
+                              "4- and 8-byte non relocatable elements (address, value and life cycle kept in a side table), incl. SmallVectors whose inline storage is "
+                              "the pointer word.")
     return core.finish("C02", tier, "exploration", cov, viols, inc, t0, ASSUME_SAN, min_evals=1000)
 
 
@@ -521,6 +527,6 @@ def replay(path):
     return 1
 
 
-EXTRA_SETUP = [lambda: [c.spec() for c in sets.DEFAULTS_QUICK], lambda: [c16.spec(b) for b in c16.matrix("quick")], lambda: [c20.spec()], lambda: [fuzz.spec_of(c) for c in vec.FUZZ_QUICK + sets.fuzz_cfgs('fs', 'quick') + sets.fuzz_cfgs('ss', 'quick')]]
+EXTRA_SETUP = [lambda: [c.spec() for c in sets.DEFAULTS_QUICK + sets.TINY_QUICK], lambda: [c16.spec(b) for b in c16.matrix("quick")], lambda: [c20.spec()], lambda: [fuzz.spec_of(c) for c in vec.FUZZ_QUICK + sets.fuzz_cfgs('fs', 'quick') + sets.fuzz_cfgs('ss', 'quick')]]
 
 CHECKS = {"C01": c01, "C02": c02, "C05": c05, "C06": c06, "C07": c07, "C03": c03, "C04": c04, "C11": c11, "C12": c12, "C19": c19, "C18": c18, "C10": c10, "C08": c08, "C09": c09, "C13": c13, "C15": c15, "C16": c16_check, "C17": c17_check, "C14": c14, "C20": c20_check}
